@@ -1958,6 +1958,120 @@ def _apply_chosen_callable(tree):
     return count[0]
 
 
+CLASS_ANCESTORS = {}  # short class name -> short names of all its ancestors in the package (filled by the loader)
+
+
+def _ancestors_of(type_expr):
+    """names of the classes a class named by `type_expr` derives from, as far as known (builtins exactly, classes of
+    the package by short name; anything else: object only)"""
+    import builtins
+
+    name = type_expr.attr if isinstance(type_expr, ast.Attribute) else type_expr.id if isinstance(type_expr, ast.Name) else None
+    if name is None:
+        return None
+    if isinstance(type_expr, ast.Name) and isinstance(getattr(builtins, name, None), type) and name not in CLASS_ANCESTORS:
+        return {c.__name__ for c in getattr(builtins, name).__mro__[1:]}
+    return set(CLASS_ANCESTORS.get(name, ())) | {"object"}
+
+
+def _single_dispatch(tree):
+    """A module-level `functools.singledispatch` function with its registrations (`@f.register(T)` — also stacked —,
+    `@f.register` with an annotated first parameter, `f.register(T, impl)`, `f.register(T)(impl)`) is the type switch
+    it stands for: `def f(x, ..): if isinstance(x, T1): return impl1(x, ..) .. <body of the generic function>`, the
+    tests ordered so that a class comes before the classes it derives from (as the dispatch on the method resolution
+    order chooses)."""
+    gens = {}
+    for st in tree.body:
+        if isinstance(st, ast.FunctionDef) and any(ast.unparse(d) in ("singledispatch", "functools.singledispatch") for d in st.decorator_list):
+            a = st.args
+            if a.vararg or a.kwarg or a.kwonlyargs or a.posonlyargs or a.defaults or not a.args:
+                continue
+            gens[st.name] = st
+    if not gens:
+        return 0
+    regs = {g: [] for g in gens}
+    taken = {st.name for st in tree.body if isinstance(st, (ast.FunctionDef, ast.ClassDef))}
+    count = [0]
+
+    def reg_call(e):
+        """(generic name, type expression) for `f.register(T)`"""
+        if isinstance(e, ast.Call) and isinstance(e.func, ast.Attribute) and e.func.attr == "register" and isinstance(e.func.value, ast.Name) and e.func.value.id in gens and not e.keywords:
+            return e.func.value.id, e.args
+        return None
+
+    body, broken = [], set()
+    for st in tree.body:
+        if isinstance(st, ast.FunctionDef) and st.name not in gens or (isinstance(st, ast.FunctionDef) and gens.get(st.name) is not st):
+            keep, types = [], []
+            for d in st.decorator_list:
+                r = reg_call(d)
+                if r is not None and len(r[1]) == 1:
+                    types.append((r[0], r[1][0]))
+                elif isinstance(d, ast.Attribute) and d.attr == "register" and isinstance(d.value, ast.Name) and d.value.id in gens:
+                    ann = st.args.args[0].annotation if st.args.args else None
+                    if ann is None:
+                        broken.add(d.value.id)
+                    else:
+                        types.append((d.value.id, ann))
+                else:
+                    keep.append(d)
+            if types:
+                if st.name == "_" or sum(1 for x in tree.body if isinstance(x, ast.FunctionDef) and x.name == st.name) > 1:
+                    count[0] += 1
+                    name = "_%s__case%d" % (types[0][0].lstrip("_"), count[0])
+                    while name in taken:
+                        name += "_"
+                    taken.add(name)
+                    st.name = name
+                st.decorator_list = keep
+                for g, t in types:
+                    regs[g].append((t, ast.Name(id=st.name, ctx=ast.Load())))
+            body.append(st)
+            continue
+        if isinstance(st, ast.Expr):
+            r = reg_call(st.value)
+            if r is not None and len(r[1]) == 2:
+                regs[r[0]].append((r[1][0], r[1][1]))
+                continue
+            if isinstance(st.value, ast.Call) and len(st.value.args) == 1 and not st.value.keywords:
+                r = reg_call(st.value.func)
+                if r is not None and len(r[1]) == 1:
+                    regs[r[0]].append((r[1][0], st.value.args[0]))
+                    continue
+        body.append(st)
+    n = 0
+    for name, g in gens.items():
+        if name in broken:
+            continue
+        # other uses of the registry (f.registry, f.dispatch, registrations inside functions) are not followed
+        if any(isinstance(x, ast.Attribute) and isinstance(x.value, ast.Name) and x.value.id == name and x.attr in ("register", "registry", "dispatch") for st in body for x in ast.walk(st)):
+            continue
+        cases = []
+        for t, impl in regs[name]:
+            anc = _ancestors_of(t)
+            if anc is None:
+                cases = None
+                break
+            cases.append((t, impl, anc))
+        if cases is None:
+            continue
+        cases.sort(key=lambda c: -len(c[2]))  # stable: a class has more ancestors than any class it derives from
+        params = [a.arg for a in g.args.args]
+        chain = []
+        for t, impl, _anc in cases:
+            call = ast.Call(func=copy.deepcopy(impl), args=[ast.Name(id=p_, ctx=ast.Load()) for p_ in params], keywords=[])
+            call = _Beta().visit(call)
+            test = ast.Call(func=ast.Name(id="isinstance", ctx=ast.Load()), args=[ast.Name(id=params[0], ctx=ast.Load()), copy.deepcopy(t)], keywords=[])
+            chain.append(ast.copy_location(ast.If(test=test, body=[ast.Return(value=call)], orelse=[]), g))
+        g.decorator_list = [d for d in g.decorator_list if ast.unparse(d) not in ("singledispatch", "functools.singledispatch")]
+        doc = [x for x in g.body[:1] if isinstance(x, ast.Expr) and isinstance(x.value, ast.Constant) and isinstance(x.value.value, str)]
+        g.body = doc + chain + g.body[len(doc):]
+        ast.fix_missing_locations(g)
+        n += 1
+    tree.body = body
+    return n
+
+
 def _yield_from_loops(tree):
     """a statement `yield from E` whose value is not used hands out the items of E one by one: `for y in E: yield y`
     (`yield from map(f, E)` with a named f: `for y in E: yield f(y)`)"""
@@ -1983,6 +2097,7 @@ def _yield_from_loops(tree):
 
 def normalise(tree):
     """unroll table-driven loops and fold constant getattr / setattr; returns (tree, number of loops unrolled)"""
+    _single_dispatch(tree)
     _yield_from_loops(tree)
     _flatten_private_bases(tree)
     _specialise_template_methods(tree)
